@@ -130,6 +130,39 @@ theorem dec_mk (c : Nat) (f : List (Str × List Str)) (h : History.H Ui.Page) (k
     rw [this, List.map_id]
 
 
+/-! ### Every translated state is the encoding of a model state -/
+
+theorem encT_decT (x : GT) : encT (decT x) = x := by
+  cases x with
+  | failure v => cases v <;> rfl
+  | _ => rfl
+
+theorem encFeed_decFeed (g : GenFeed.Feed GT) : encFeed (decFeed g) = g := by
+  cases g with
+  | mk fd u l i =>
+    simp only [decFeed, encFeed, Option.map_map]
+    congr 1
+    funext j
+    cases fd j <;> simp [encT_decT]
+
+theorem encPage_decPage (g : GPage) : encPage (decPage g) = g := by
+  cases g with
+  | mk f r => simp only [encPage, decPage, encFeed_decFeed]
+
+/-- A translated state whose mode is one of the six declared and whose history index is not
+    negative (it starts at 0 and `Back` decrements it only when positive) is the encoding of a
+    model state: `update_eq` covers every state the code can be in. -/
+theorem enc_dec (c : Nat) (f : List (Str × List Str)) (g : GState) (hm : 0 ≤ g.mode ∧ g.mode ≤ 5)
+    (hi : 0 ≤ g.h.index) : enc (dec c f g) = g := by
+  obtain ⟨⟨els, ix⟩, m, b⟩ := g
+  have e1 : (encPage ∘ decPage) = id := by funext p; simp [encPage_decPage]
+  have e2 : modeNum (modeOf m) = m := by
+    have : m = 0 ∨ m = 1 ∨ m = 2 ∨ m = 3 ∨ m = 4 ∨ m = 5 := by simp only at hm; omega
+    rcases this with h | h | h | h | h | h <;> subst h <;> rfl
+  simp only at hi
+  simp only [enc, dec, encH, List.map_map, e1, List.map_id, e2, Int.toNat_of_nonneg hi]
+
+
 /-! ### The actions, interpreted by the model -/
 
 /-- A model function on states, on translated states. -/
